@@ -475,7 +475,51 @@ class Program:
         else:
             callee = p
         args = tuple(self.val_operand(fn, (b, n), a, body) for a in t["args"])
+        if isinstance(callee, str) and callee.endswith("box_assume_init_into_vec_unsafe") and t["args"]:
+            v = self._vec_macro_value(fn, body, b, t["args"][0])
+            if v is not None:
+                return v
         return ("call", fn.path + ("#" + body.tag if body.tag else ""), b, callee, args)
+
+    def _vec_macro_value(self, fn, body, b, arg):
+        """`vec![a, b, ..]` lowers to Box::new_uninit + a write of the array through a raw pointer +
+        box_assume_init_into_vec_unsafe: recover the array aggregate as the vector's value."""
+        if arg["k"] not in ("copy", "move"):
+            return None
+        # locals that alias the box: follow plain moves backwards
+        boxes = {arg["place"]["l"]}
+        changed = True
+        while changed:
+            changed = False
+            for l in list(boxes):
+                for (db, di, kind) in body.defs().get(l, []):
+                    if kind == "full":
+                        rv = body.blocks[db]["stmts"][di]["rv"]
+                        if rv["k"] == "use" and rv["op"]["k"] in ("copy", "move") and not rv["op"]["place"]["p"]:
+                            if rv["op"]["place"]["l"] not in boxes:
+                                boxes.add(rv["op"]["place"]["l"])
+                                changed = True
+        ptrs = set()
+        for l, ds in body.defs().items():
+            for (db, di, kind) in ds:
+                if kind == "full":
+                    rv = body.blocks[db]["stmts"][di]["rv"]
+                    if rv["k"] == "cast" and rv["op"]["k"] in ("copy", "move") and rv["op"]["place"]["l"] in boxes:
+                        ptrs.add(l)
+        found = []
+        for db, blk in enumerate(body.blocks):
+            if blk["cleanup"]:
+                continue
+            for di, st in enumerate(blk["stmts"]):
+                if st["k"] == "assign" and st["place"]["l"] in ptrs and st["place"]["p"] and st["place"]["p"][0]["k"] == "deref":
+                    found.append((db, di, st))
+        if len(found) != 1:
+            return None
+        db, di, st = found[0]
+        v = self.val_rvalue(fn, body, (db, di), st["rv"])
+        if v[0] == "agg" and v[1] == "array":
+            return ("agg", "array", "vec", v[3])
+        return None
 
     def val_rvalue(self, fn, body, loc, rv):
         k = rv["k"]
